@@ -53,9 +53,50 @@ def malformed_stream(rng, valid_sources, n):
            ("decorator stack", b"".join(b"@d%d\n" % i for i in range(3000)) + b"def f():\n    pass\n"),
            ("return outside function + break outside loop", b"return 1\nbreak\ncontinue\nyield 2\nawait x\n"),
            ("global soup", b"global\nnonlocal\ndel\nassert\nraise from\nimport\nfrom import\n"), ("random high bytes", bytes(range(128, 256)) * 4)]
+    # large non-Python text saved as .py (tree-sitter's error recovery is the slow path; a time limit added there must not leak into the next file)
+    js = ";".join("function f%d(a,b){var c=a?b:{k:[1,2,%d],s:'x%d'};return c&&c.k.map(function(v){return v*%d})}" % (i, i, i, i) for i in range(4000))
+    sql = "\n".join("INSERT INTO t%d (id, name, payload) VALUES (%d, 'name%d', '{\"a\": [%d, %d]}');" % (i % 7, i, i, i, i * 3) for i in range(6000))
+    unit = b"function f(a){if(a){return a+1;}else{var b=a||0;for(var i=0;i<b;i++){g(i);}}}\n"
+    out += [("JS functions one per line 330 KB (slow error recovery)", unit * (330 * 1024 // len(unit))), ("minified JS 450 KB", js.encode()[:450000]), ("SQL dump 450 KB", sql.encode()[:450000]),
+            ("CSV 300 KB", ("\n".join(",".join(str((i * j) % 97) for j in range(40)) for i in range(3000))).encode()[:300000]),
+            ("base64 blob 400 KB", __import__("base64").b64encode(bytes((i * 7919) % 256 for i in range(300000)))[:400000])]
+    # every clause kind with a body that holds only a comment, no body at all, or no header expression — the shapes
+    # tree-sitter recovers from with nodes whose expected fields are missing (F38: comment-only `elif` body panicked)
+    clauses = [("if a:", None), ("if a:", "elif b:"), ("if a:", "else:"), ("for i in a:", None), ("for i in a:", "else:"), ("while a:", None),
+               ("while a:", "else:"), ("try:", "except E:"), ("try:", "except E as e:"), ("try:", "finally:"), ("try:", "except* E:"), ("with a as b:", None),
+               ("def g():", None), ("class K:", None), ("match a:", None), ("match a:", "case 1:"), ("async def g():", None), ("async for i in a:", None),
+               ("async with a as b:", None), ("if a:", "elif:"), ("while:", None), ("for in a:", None), ("try:", "except E:+else:"), ("try:", "except E:+finally:")]
+    for first, second in clauses:
+        for defect in ("comment", "missing", "blank"):
+            filler = {"comment": "        # only a comment\n", "missing": "", "blank": "\n\n"}[defect]
+            for wrap in (True, False):
+                ind = "    " if wrap else ""
+                lines = ("def f(a, b):\n" if wrap else "")
+                if second is None:
+                    lines += ind + first + "\n" + filler.replace("        ", ind + "    ")
+                else:
+                    lines += ind + first + "\n" + ind + "    x = 1\n"
+                    parts = second.split("+")
+                    for k, hdr in enumerate(parts):
+                        lines += ind + hdr + "\n" + (filler.replace("        ", ind + "    ") if k == len(parts) - 1 else ind + "    y = 2\n")
+                lines += ind + "return 2\n" if wrap else "z = 3\n"
+                out.append(("%s body of `%s`%s" % (defect, second or first, " in def" if wrap else ""), lines.encode()))
     while len(out) < n:
         src = rng.choice(valid_sources).encode()
-        kind = rng.choice(["truncate", "flip", "delete", "insert", "dup", "shuffle_lines", "random"])
+        kind = rng.choice(["truncate", "flip", "delete", "insert", "dup", "shuffle_lines", "random", "body_commented", "body_commented"])
+        if kind == "body_commented":
+            ls = src.split(b"\n")
+            heads = [i for i, l in enumerate(ls) if l.rstrip().endswith(b":")]
+            if heads:
+                i = rng.choice(heads)
+                ind = len(ls[i]) - len(ls[i].lstrip())
+                j = i + 1
+                while j < len(ls) and (not ls[j].strip() or len(ls[j]) - len(ls[j].lstrip()) > ind):
+                    j += 1
+                repl = rng.choice([[b" " * (ind + 4) + b"# body removed"], [], [b""], [b" " * (ind + 4) + b"..."[:0] + b"#"]])
+                out.append(("block body replaced by comment/nothing", b"\n".join(ls[:i + 1] + repl + ls[j:])))
+                continue
+            kind = "truncate"
         if kind == "truncate":
             out.append(("truncated", src[:rng.randrange(len(src))]))
         elif kind == "flip":
@@ -79,6 +120,90 @@ def malformed_stream(rng, valid_sources, n):
         else:
             out.append(("random bytes", bytes(rng.randrange(256) for _ in range(rng.randint(1, 400)))))
     return out[:n]
+
+
+CLAUSES = ["if", "elif1", "elif2", "elif3", "else", "for", "for_else", "while", "while_else", "try", "except", "except2", "try_else", "finally", "with", "def", "class",
+           "case1", "case2", "async_for", "async_with", "nested_elif_try"]
+STMTS = {
+    "import": "import os.path as osp", "import_multi": "import os, sys as system, json", "from_import": "from collections import OrderedDict as OD, deque", "from_rel": "from . import sibling",
+    "from_star": "from os.path import *" , "return": "return a", "raise": "raise ValueError(a)", "assign": "a = b + 1", "augassign": "a += 1", "annassign": "a: int = 1", "expr_call": "print(a, b)",
+    "def": "def inner(x):\n    return x", "class": "class Inner:\n    y = 1", "lambda": "f = lambda x: x + a", "listcomp": "c = [x for x in range(a) if x]", "dictcomp": "c = {x: x for x in range(a)}",
+    "genexp": "c = sum(x for x in range(a))", "with": "with open(a) as fh:\n    b = fh.read()", "assert": "assert a, b", "del": "del a", "global": "global G", "pass": "pass", "fstring": "c = f\"{a!r:>{b}}\"",
+    "walrus": "if (n := a) > 1:\n    b = n", "ternary": "c = a if b else None", "try_in": "try:\n    import json\nexcept ImportError:\n    json = None", "yield": "yield a", "await": "await a",
+    "starred": "c, *d = a", "decorated": "@staticmethod\ndef deco():\n    return 1", "match": "match a:\n    case [x, *rest]:\n        b = x\n    case {\"k\": v}:\n        b = v\n    case _:\n        b = 0",
+    "type_checking": "if TYPE_CHECKING:\n    import typing", "docstring": "\"\"\"doc\"\"\"", "semicolons": "a = 1; b = 2; return a", "nonlocal_def": "def inner2():\n    nonlocal a\n    a = 2",
+}
+
+
+def shape_cell(clause, stmt):
+    """a VALID function whose clause `clause` contains the statement `stmt` (positions x statement kinds, the same matrix idea as C02/C12/C13)"""
+    body = STMTS[stmt]
+    is_async = stmt == "await" or clause.startswith("async")
+    ind = lambda txt, n: "\n".join(" " * n + l for l in txt.split("\n"))
+    B = lambda n: ind(body, n)
+    t = {
+        "if": "    if a:\n%s\n" % B(8),
+        "elif1": "    if a:\n        pass\n    elif b:\n%s\n" % B(8),
+        "elif2": "    if a:\n        pass\n    elif b:\n        pass\n    elif a > b:\n%s\n" % B(8),
+        "elif3": "    if a:\n        pass\n    elif b:\n        pass\n    elif a > b:\n        pass\n    elif a < b:\n%s\n    else:\n        pass\n" % B(8),
+        "else": "    if a:\n        pass\n    else:\n%s\n" % B(8),
+        "for": "    for i in range(3):\n%s\n" % B(8),
+        "for_else": "    for i in range(3):\n        pass\n    else:\n%s\n" % B(8),
+        "while": "    while a:\n%s\n        break\n" % B(8),
+        "while_else": "    while a:\n        break\n    else:\n%s\n" % B(8),
+        "try": "    try:\n%s\n    except Exception:\n        pass\n" % B(8),
+        "except": "    try:\n        pass\n    except Exception:\n%s\n" % B(8),
+        "except2": "    try:\n        pass\n    except ValueError:\n        pass\n    except (KeyError, OSError) as e:\n%s\n" % B(8),
+        "try_else": "    try:\n        pass\n    except Exception:\n        pass\n    else:\n%s\n" % B(8),
+        "finally": "    try:\n        pass\n    finally:\n%s\n" % B(8),
+        "with": "    with open(b) as fh2:\n%s\n" % B(8),
+        "def": "    def nested(a, b):\n%s\n" % B(8),
+        "class": "    class Nested:\n        def m(self, a, b):\n%s\n" % B(12),
+        "case1": "    match a:\n        case 1:\n%s\n        case _:\n            pass\n" % B(12),
+        "case2": "    match a:\n        case 1:\n            pass\n        case [x, y] if x:\n%s\n" % B(12),
+        "async_for": "    async for i in b:\n%s\n" % B(8),
+        "async_with": "    async with b as fh3:\n%s\n" % B(8),
+        "nested_elif_try": "    if a:\n        pass\n    elif b:\n        pass\n    elif a > b:\n        try:\n            for i in range(2):\n                if i:\n                    pass\n                elif a:\n                    pass\n                elif b:\n%s\n        finally:\n            pass\n" % B(20),
+    }[clause]
+    head = "%sdef cell_%s_%s(a, b):\n" % ("async " if is_async else "", clause, stmt)
+    return "from typing import TYPE_CHECKING\nG = 0\n\n" + head + t + "    return b\n"
+
+
+def shape_matrix():
+    """{file name: source} — every (clause, statement) cell inside a function and at module level; only cells CPython compiles are kept"""
+    out = {}
+    for c in CLAUSES:
+        for st in STMTS:
+            src = shape_cell(c, st)
+            variants = {"fn": src}
+            lines = src.split("\n")
+            k = next(i for i, l in enumerate(lines) if l.startswith(("def ", "async def ")))
+            variants["mod"] = "\n".join(lines[:k] + ["a = 1", "b = 2"] + [l[4:] for l in lines[k + 1:-2]]) + "\n"
+            for v, text in variants.items():
+                try:
+                    compile(text, "cell", "exec")
+                except SyntaxError:
+                    continue
+                out["%s_%s_%s.py" % (v, c, st)] = text
+    return out
+
+
+def shape_run(files, root, timeout):
+    """analyse the given cells as one project; returns None when fine, else a description"""
+    shutil.rmtree(root, ignore_errors=True)
+    os.makedirs(os.path.join(root, "proj"))
+    open(os.path.join(root, "proj", "sibling.py"), "w").write("X = 1\n")
+    for fn, text in files.items():
+        open(os.path.join(root, "proj", fn), "w").write(text)
+    rc, so, se, secs = run_cli(["analyze", "--json", "--no-open", "--min-complexity", "1", "proj"], root, timeout)
+    shutil.rmtree(root, ignore_errors=True)
+    if rc is None:
+        return "does not terminate within %d s" % timeout
+    if any(m in se or m in so for m in CRASH_MARKS):
+        return "crashes: %s" % [ln for ln in (se + so).split("\n") if any(m in ln for m in CRASH_MARKS)][:2]
+    if rc not in (0, 1):
+        return "exits with status %d" % rc
+    return None
 
 
 def run_cli(args, cwd, timeout):
@@ -117,7 +242,7 @@ def run(tier, seed, replay=None):
         "cgo, Go's stack and allocator, the algorithms' running time) that the model cannot exhibit — they are SEARCHED here with a malformed stream, not proved",
         "time bound used by the search: 20 s + 40 microseconds per byte of input per run (a linear envelope far above the times measured on valid input of the same size), address space limited to 8 GiB",
     ]
-    nbad = 90 if tier == "quick" else 900
+    nbad = 280 if tier == "quick" else 1200
     hist = {"alone_runs": 0, "mixed_runs": 0, "by_kind": {}, "exit0": 0, "exit1": 0, "max_seconds": 0.0, "slowest": "", "selection_format_runs": 0}
     nontrivial = set()
     tmp = tempfile.mkdtemp(prefix="pv_c06_")
@@ -141,6 +266,60 @@ def run(tier, seed, replay=None):
             res.violation("analyze failed on the reference project of valid files: %s" % err[-300:], {"files": good})
             return res.finish("other")
         ref_parts = per_file(ref, lambda p: True)
+        # ---- time bound proportional to the input size: t(4n) against 4 t(n) per input family (complexity analysis only: one parse + CFGs) -----------------
+        fam = {
+            "valid functions": lambda n: ("def f%d(a):\n    if a:\n        return 1\n    return 2\n\n" * 1).encode() * 0 + "".join("def f%d(a):\n    if a:\n        return 1\n    return 2\n\n" % i for i in range(n // 50)).encode(),
+            "valid statements in one function": lambda n: b"def f(a):\n" + b"    a += 1\n" * (n // 11) + b"    return a\n",
+            "JS functions one per line": lambda n: unit_js * (n // len(unit_js)),
+            "unclosed brackets": lambda n: b"x = [\n" + b"  (1, [2, {3: (4,\n" * (n // 18),
+            "random printable": lambda n: bytes(random.Random(n).choice(b"abcdef (){}[]:;,.=+-*/'\"\n\t#@") for _ in range(n)),
+        }
+        unit_js = b"function f(a){if(a){return a+1;}else{var b=a||0;for(var i=0;i<b;i++){g(i);}}}\n"
+        hist["scaling"] = {}
+        for name, mk in fam.items():
+            times = []
+            for n in (150 * 1024, 600 * 1024):
+                root = os.path.join(tmp, "scale")
+                shutil.rmtree(root, ignore_errors=True)
+                os.makedirs(os.path.join(root, "proj"))
+                with open(os.path.join(root, "proj", "big.py"), "wb") as f:
+                    f.write(mk(n))
+                rc, so, se, secs = run_cli(["analyze", "--json", "--no-open", "--select", "complexity", "proj"], root, 600)
+                times.append(secs if rc is not None else 600.0)
+                shutil.rmtree(root, ignore_errors=True)
+            hist["scaling"][name] = [round(t, 2) for t in times]
+            # proportional would be x4; x8 leaves a factor 2 for noise and cache effects; below 3 s nothing is concluded
+            if times[1] > 3.0 and times[1] > 8.0 * max(times[0], 0.05):
+                sig = {"kind": "superlinear", "family": name}
+                k = C.classify(PID, sig)
+                msg = "C06 time bound: %s: %.1f s for 150 KiB but %.1f s for 600 KiB (x%.1f for x4 input; `analyze --select complexity`)" % (name, times[0], times[1], times[1] / max(times[0], 0.05))
+                if k:
+                    res.known_finding(k, "(%s)" % msg)
+                else:
+                    res.violation(msg, {"signature": sig, "family": name, "sizes": [150 * 1024, 600 * 1024], "seconds": times, "head_hex": mk(400)[:200].hex()})
+        # ---- valid Python of any shape: the clause x statement matrix (all analyses, incl. the import graph) ---------------------------------------
+        cells = shape_matrix()
+        hist["shape_cells"] = len(cells)
+        what = shape_run(cells, os.path.join(tmp, "shapes"), 240)
+        if what:
+            names = sorted(cells)
+            while len(names) > 1:            # bisect to one failing cell (a failure that needs two files keeps the larger set)
+                half = names[:len(names) // 2]
+                if shape_run({n: cells[n] for n in half}, os.path.join(tmp, "shapes"), 40):
+                    names = half
+                elif shape_run({n: cells[n] for n in names[len(half):]}, os.path.join(tmp, "shapes"), 40):
+                    names = names[len(half):]
+                else:
+                    break
+            sig = {"kind": "valid-shape", "cells": names[:3]}
+            k = C.classify(PID, sig)
+            msg = "C06: `pyscn analyze` on VALID Python %s: %s" % (names[:3], shape_run({n: cells[n] for n in names}, os.path.join(tmp, "shapes"), 40) or what)
+            if k:
+                res.known_finding(k, "(%s)" % msg[:250])
+            else:
+                res.violation(msg, {"signature": sig, "files": {n: cells[n] for n in names[:8]}})
+        else:
+            nontrivial.add("valid shape matrix")
         for bi, (label, data) in enumerate(bad):
             hist["by_kind"][label] = hist["by_kind"].get(label, 0) + 1
             limit = 20.0 + 40e-6 * len(data)
@@ -180,10 +359,10 @@ def run(tier, seed, replay=None):
                 continue
             nontrivial.add(label)
             # ---- mixed into the project of valid files --------------------------------------------------------------------------------------
-            if bi % (2 if tier == "quick" else 3) == 0:
+            if bi % (2 if tier == "quick" else 3) == 0 or " KB" in label:
                 root = os.path.join(tmp, "m%d" % bi)
                 shutil.copytree(os.path.join(ref_root, "proj"), os.path.join(root, "proj"))
-                where = rng.choice(["aaa_bad.py", "good2_bad.py", "zzz_bad.py", "pkg/bad.py"])
+                where = rng.choice(["aaa_bad.py", "good2_bad.py", "zzz_bad.py", "pkg/bad.py"]) if " KB" not in label else "good1_bad.py"   # big files: always with successors
                 with open(os.path.join(root, "proj", where), "wb") as f:
                     f.write(data)
                 rc, so, se, secs = run_cli(["analyze", "--json", "--no-open", "proj"], root, limit + 120)
@@ -219,12 +398,12 @@ def run(tier, seed, replay=None):
     res.coverage.update({
         "evaluations": hist["alone_runs"] + hist["mixed_runs"],
         "distinct_nontrivial": len(nontrivial),
-        "rule": "malformed stream: 50 hand-picked shapes (empty, NUL, BOMs, UTF-16, invalid UTF-8, unterminated strings, broken blocks, CR/CRLF, nesting of parens/brackets/blocks/defs/"
+        "rule": "VALID shapes: the clause x statement matrix (22 clause positions incl. 2nd/3rd elif, loop-else, except/finally, match cases, async; 35 statement kinds incl. every import form; inside a function and at module level; only cells CPython compiles) analysed as one project with all analyses, bisected to one cell on failure; malformed stream: 144 clause-body defects (every compound-statement clause kind x {comment-only body, no body, blank body} x {inside a def, top level}) + 50 hand-picked shapes (empty, NUL, BOMs, UTF-16, invalid UTF-8, unterminated strings, broken blocks, CR/CRLF, nesting of parens/brackets/blocks/defs/"
                 "classes/try up to several thousand levels, chains of attributes/calls/operators/elif/decorators up to 20000 links, 60000-line function, 4000 functions) + byte-level "
-                "mutations of valid generated modules (truncate, flip, delete, insert token, duplicate span, shuffle lines, random bytes); each file alone under a random analysis selection and "
+                "mutations of valid generated modules (truncate, flip, delete, insert token, duplicate span, shuffle lines, random bytes, block body replaced by a comment or nothing); each file alone under a random analysis selection and "
                 "output format, every second one also mixed into a project of 5 valid files at a random position (per-file results of the valid files must equal the reference run)",
         "samples": [{"kind": l, "size": len(b), "head_hex": b[:48].hex()} for l, b in bad[:3] + bad[50:52]],
         "traces_validated_against_impl": hist["mixed_runs"],
         "distribution": hist,
     })
-    return res.finish("proof")
+    return res.finish("other")
